@@ -242,3 +242,36 @@ int main() {
 for _f in UNIT.fns:
     if _f.name in ('cbitset_set', 'cbitset_reset'):
         _f.twin = _twin_cbitset(_f.name.split('_')[1])
+
+
+def _twin_cvector(method, T):
+    def tw(o):
+        pfx = 'cvec16' if T == 'uint16_t' else 'cvecv'
+        v = _N.trace_vals(o, 'h_%s_%s' % (pfx, method))
+        size = min(_N.to_int(v.get('x.current_size'), 0), 16); n = min(max(_N.to_int(v.get('x.N'), 16), 1), 16)
+        data = [_N.to_int(v.get('x.the_data[%dl]' % k), 0) for k in range(16)]
+        a = _N.to_int(v.get('a'), 0); b = _N.to_int(v.get('b'), 0); val = _N.to_int(v.get('v'), 7)
+        body = {'push_back': 'c.push_back((T)%d); ok = c.size() == n0 + 1 && c[n0] == (T)%d;' % (val, val),
+                'emplace_back': 'c.emplace_back((T)%d); ok = c.size() == n0 + 1 && c[n0] == (T)%d;' % (val, val),
+                'pop_back': 'c.pop_back(); ok = c.size() == n0 - 1;',
+                'erase': 'c.erase(c.end() - (n0 - %d), c.end()); ok = c.size() == (size_t)%d;' % (a, a)}[method]
+        return _N.TWIN_HEAD + """
+typedef %s T;
+int main() {
+    stdex::cvector<T, 16> c; T init[16] = { %s }; size_t n0 = %d;
+    for (size_t k = 0; k < n0; ++k) c.push_back(init[k]);
+    bool ok = true;
+    %s
+    for (size_t k = 0; k < c.size() && k < n0; ++k) if (c[k] != init[k]) { ok = false; std::printf("element %%zu changed\\n", k); }
+    std::printf("size %%zu -> %%zu\\n", n0, c.size());
+    return ok ? 0 : 1;
+}""" % (T, ', '.join(str(x) for x in data), size, body)
+    return tw
+
+
+for _f in UNIT.fns:
+    for _m in ('push_back', 'emplace_back', 'pop_back', 'erase'):
+        if _f.name == 'cvec16_' + _m:
+            _f.twin = _twin_cvector(_m, 'uint16_t')
+        if _f.name == 'cvecv_' + _m:
+            _f.twin = _twin_cvector(_m, 'uint32_t')
